@@ -49,12 +49,31 @@ type runner struct {
 	queries, maxStack                                                                     int
 }
 
+// tmpBase: where the per-case databases live (removed at the end of every case). C09_TMP overrides; otherwise
+// /dev/shm when it is usable (the property is about answers, not durability: fsync cost only slows the search
+// down 5x), else the default temp dir (TMPDIR).
+func tmpBase() string {
+	if d := os.Getenv("C09_TMP"); d != "" {
+		return d
+	}
+	if os.Getenv("TMPDIR") == "" {
+		if fi, err := os.Stat("/dev/shm"); err == nil && fi.IsDir() {
+			if f, err := os.CreateTemp("/dev/shm", "c09w"); err == nil {
+				f.Close()
+				os.Remove(f.Name())
+				return "/dev/shm"
+			}
+		}
+	}
+	return ""
+}
+
 func openBackend(kind string) (storage.Store, string, error) {
 	switch kind {
 	case "mem":
 		return storage.NewMemoryStore(), "", nil
 	case "bolt":
-		dir, err := os.MkdirTemp("", "c09")
+		dir, err := os.MkdirTemp(tmpBase(), "c09")
 		if err != nil {
 			return nil, "", err
 		}
@@ -65,7 +84,7 @@ func openBackend(kind string) (storage.Store, string, error) {
 		}
 		return s, dir, nil
 	case "leveldb":
-		dir, err := os.MkdirTemp("", "c09")
+		dir, err := os.MkdirTemp(tmpBase(), "c09")
 		if err != nil {
 			return nil, "", err
 		}
@@ -270,6 +289,10 @@ func (r *runner) descQ(what string, at int, q *Q) string {
 	return fmt.Sprintf("%s at layer %d of %d on %s (prefix=%x start=%x back=%v depth=%d)", what, at, len(r.st), r.kind, []byte(q.Prefix), []byte(q.Start), q.Back, q.Depth)
 }
 
+func fmtQ(q *Q) string {
+	return fmt.Sprintf("(prefix=%x start=%x back=%v depth=%d)", []byte(q.Prefix), []byte(q.Start), q.Back, q.Depth)
+}
+
 func rngOf(q *Q) storage.SeekRange {
 	return storage.SeekRange{Prefix: bytes.Clone(q.Prefix), Start: bytes.Clone(q.Start), Backwards: q.Back, SearchDepth: q.Depth}
 }
@@ -300,8 +323,12 @@ func (r *runner) noteQ(at int, q *Q) {
 
 // getCheck compares one point read.
 func (r *runner) getCheck(at int, k []byte) error {
+	return r.getCheckIn(r.m.view(at, 0), at, k)
+}
+
+func (r *runner) getCheckIn(view map[string][]byte, at int, k []byte) error {
 	got, err := storeOf(r, at).Get(k)
-	want, ok := r.m.view(at, 0)[string(k)]
+	want, ok := view[string(k)]
 	r.tr("get %d %x -> %x %v", at, k, got, err == nil)
 	switch {
 	case ok && err != nil:
@@ -359,7 +386,7 @@ func (r *runner) seekCheck(at int, q *Q, stop int, cws []CW, viaDao bool, id int
 	if wrote {
 		r.sawCB = true
 	}
-	r.tr("%s %d %v -> %s", what, at, *q, fmtKVs(got))
+	r.tr("%s at %d %s -> %s", what, at, fmtQ(q), fmtKVs(got))
 	return cmpLists(r.descQ(what, at, q), got, want)
 }
 
@@ -394,11 +421,9 @@ func (r *runner) flushLayer(i, mode int) error {
 }
 
 // asyncCheck runs SeekAsync at cache layer at and compares what is received with the snapshot at call time.
-// The channel is always cancelled and drained before returning. If midRelease is non-nil it is called after
-// the first `op.Stop`-independent batch of items (used by the window span).
-// asyncCheck runs SeekAsync at cache layer at and compares what is received with the snapshot at call time.
-// The channel is always cancelled and drained before returning. If midRelease is non-nil it is called after
-// the first `op.Stop`-independent batch of items (used by the window span).
+// The channel is always cancelled and drained before returning (no goroutine outlives the check). If mid is non-nil
+// it is called once, after the first received item (or after the end of an empty iteration): the window span uses
+// it to release the gated Persist while the iteration is still in flight.
 func (r *runner) asyncCheck(at int, op *Op, viaDao bool, mid func() error) error {
 	q := op.Q
 	fq := *q
@@ -516,7 +541,7 @@ func (r *runner) asyncCheck(at int, op *Op, viaDao bool, mid func() error) error
 			return err
 		}
 	}
-	r.tr("%s %d %v stop=%d -> %s", what, at, *q, op.Stop, fmtKVs(got))
+	r.tr("%s at %d %s cancel=%d -> %s", what, at, fmtQ(q), op.Stop, fmtKVs(got))
 	if cancelled {
 		// after cancellation the producer may or may not deliver further items: whatever arrived must be a
 		// prefix of the expected list that contains at least the items received before the cancel
@@ -546,7 +571,7 @@ func (r *runner) gcCheck(at int, op *Op) error {
 	if err != nil {
 		return fmt.Errorf("%s failed: %v", r.descQ("SeekGC", at, q), err)
 	}
-	r.tr("gc %d %v -> %s", at, *q, fmtKVs(got))
+	r.tr("SeekGC at %d %s -> %s", at, fmtQ(q), fmtKVs(got))
 	if err := cmpLists(r.descQ("SeekGC", at, q), got, want); err != nil {
 		return err
 	}
@@ -586,7 +611,7 @@ func (r *runner) audit(at int, when string) error {
 		}
 	}
 	for _, k := range r.c.Keys {
-		if err := r.getCheck(at, k); err != nil {
+		if err := r.getCheckIn(view, at, k); err != nil {
 			return fmt.Errorf("audit %s: %w", when, err)
 		}
 	}
@@ -869,6 +894,7 @@ func checkTri(c Case, o *vt.Obs) error {
 		r.close()
 		if bi == 0 {
 			ref = r.trace
+			r.kind = "tri"
 			r.labels()
 		} else {
 			n := min(len(ref), len(r.trace))
